@@ -123,7 +123,9 @@ class EFLRItem:
         """
 
         # (the item itself is not registered with the parent yet at this point)
-        taken = {o.copy_number for o in self.parent.get_all_eflr_items() if o.name == self.name and o is not self}
+        # (same-named objects in other sets of the same type in the logical file count as well)
+        taken = {o.copy_number for o in self.parent.get_all_eflr_items_of_type()
+                 if o.name == self.name and o is not self}
         return next(n for n in range(len(taken) + 1) if n not in taken)
 
     @classmethod
